@@ -10,6 +10,9 @@
  *   seed=<n>        seed of the byte stream handed to the library
  *  event units, executed in order:
  *   q        new user query                       a   oldest transmission in flight answered
+ *   p        new user query; if it goes to a server without failures and a failed server is past
+ *            its retry time, a connection to that server cannot be established during this call
+ *            (aconnect fails with ENETUNREACH): the probe copy fails synchronously.  rec PF if so.
  *   s r i    ... answered SERVFAIL/REFUSED/NOTIMP x   60 s pass, every attempt in flight times out
  *   c        ares_cancel
  *   k        the connection of the oldest transmission in flight fails (read error ECONNREFUSED)
@@ -278,9 +281,27 @@ static void run_case(long k, char *line)
     int is_event = 1;
     g_rec_len    = 0;
     g_rec[0]     = 0;
-    if (strcmp(u, "q") == 0) {
+    if (strcmp(u, "q") == 0 || strcmp(u, "p") == 0) {
       ares_dns_record_t *recq = NULL;
       char               name[64];
+      if (u[0] == 'p') {
+        /* the first server (in list order) with failures whose retry time has passed - whether or
+         * not the library believes a probe to it is pending */
+        const ares_server_t *first = ares_slist_first_val(ch->servers);
+        ares_slist_node_t   *node;
+        if (first != NULL && first->consec_failures == 0 && ch->server_retry_chance != 0) {
+          for (node = ares_slist_node_first(ch->servers); node != NULL; node = ares_slist_node_next(node)) {
+            const ares_server_t *s = ares_slist_node_val(node);
+            if (s->consec_failures > 0 &&
+                (vn_now.sec > s->next_retry_time.sec ||
+                 (vn_now.sec == s->next_retry_time.sec && vn_now.usec >= s->next_retry_time.usec))) {
+              vn_fail_connect_peer4 = ntohl(s->addr.addr.addr4.s_addr);
+              break;
+            }
+          }
+        }
+        vn_fail_connect_fired = 0;
+      }
       snprintf(name, sizeof(name), "q%ld.example", label);
       ares_dns_record_create(&recq, 0, ARES_FLAG_RD, ARES_OPCODE_QUERY, ARES_RCODE_NOERROR);
       ares_dns_record_query_add(recq, name, ARES_REC_TYPE_A, ARES_CLASS_IN);
@@ -289,6 +310,11 @@ static void run_case(long k, char *line)
       ares_send_dnsrec(ch, recq, query_cb, (void *)(intptr_t)(g_next_id - 1), NULL);
       ares_dns_record_destroy(recq);
       label++;
+      if (vn_fail_connect_fired) {
+        rec(" PF");
+      }
+      vn_fail_connect_peer4 = 0;
+      vn_fail_connect_fired = 0;
     } else if (strcmp(u, "a") == 0 || strcmp(u, "s") == 0 || strcmp(u, "r") == 0 || strcmp(u, "i") == 0) {
       respond(ch, u[0]);
     } else if (strcmp(u, "x") == 0) {
